@@ -8,8 +8,7 @@ _NOTE = ("process-history clauses (results independent of earlier calls, of in-p
 
 
 def _note(ctx):
-    if hasattr(ctx, "assumptions") and _NOTE not in ctx.assumptions:
-        ctx.assumptions.append(_NOTE)
+    ctx.extra_oracle_note = _NOTE      # appended to evidence.assumptions by Ctx.finish
 
 
 def c12_identity_history(ctx, o3):
